@@ -411,6 +411,10 @@ class Model(object):
         self._check_gradient_can_be_computed(direction, wrt)
 
         wrt = self._2fun(wrt, self.domain_geometry, is_par=is_wrt_par)
+        # The gradient functions receive plain function values: a CUQIarray tag that
+        # survives numpy arithmetic would otherwise decide how the result is converted
+        if isinstance(wrt, CUQIarray):
+            wrt = wrt.to_numpy()
 
         # Store if the input direction is CUQIarray
         is_direction_CUQIarray = isinstance(direction, CUQIarray)
